@@ -244,6 +244,19 @@ func (traceArea) Gen(r *hx.Rng, n int, tier string, emit func(string)) {
 		}
 		_ = i
 	}
+	// WriteFileWithMode on every KIND of destination, judged by Safe.writeFileK (Model/SafeFileKinds.lean)
+	for _, old := range []string{"dir", "link:70000:600", "dangling", "noparent", "absent", "file:70000:600"} {
+		sc := old + " 22 644 wf 1000x70"
+		all = append(all, "tracek "+old+" 27 666 wf - none p", "tracek "+sc+" none p")
+		if old == "noparent" {
+			continue
+		}
+		all = append(all, "tracek "+sc+" cb:0 p", "tracek "+sc+" panic:35 p", "tracek "+sc+" write:0:EIO p", "tracek "+sc+" write:1:ENOSPC s",
+			"tracek "+sc+" close:EIO p", "killk "+sc+" none p close 1", "killk "+sc+" none p rename 1", "killk "+sc+" none p unlink 1")
+		if old != "dir" { // (no rename(2) is issued for a directory destination: nothing to inject into, nothing to kill)
+			all = append(all, "tracek "+sc+" rename:EIO p", "killk "+sc+" none p rename 2")
+		}
+	}
 	for i, l := range all {
 		if i%shards == shard {
 			emit(l)
@@ -518,6 +531,8 @@ func probeStrace() string {
 
 func (traceArea) Run(line string) string {
 	f := strings.Fields(line)
+	kmode := strings.HasSuffix(f[0], "k") // tracek / killk: judged by Safe.writeFileK on the file system with node kinds
+	f[0] = strings.TrimSuffix(f[0], "k")
 	if (f[0] != "trace" && f[0] != "kill") || (f[0] == "trace" && len(f) != 8) || (f[0] == "kill" && len(f) != 10) {
 		return "bad-op"
 	}
@@ -588,7 +603,7 @@ func (traceArea) Run(line string) string {
 		if wantHi < wantIdx {
 			wantHi = wantIdx
 		}
-		out, drift = runOnce(f, s, old, um, mode, cbFail, cbMode, injects, wantInj, wantIdx, wantHi, unlinkErr != "", killKind, killIdx)
+		out, drift = runOnce(f, s, old, um, mode, cbFail, cbMode, injects, wantInj, wantIdx, wantHi, unlinkErr != "", killKind, killIdx, kmode)
 		if !drift {
 			break
 		}
@@ -598,7 +613,7 @@ func (traceArea) Run(line string) string {
 
 // runOnce performs one strace run; drift = the injection did not land on the intended call (retried by the caller).
 func runOnce(f []string, s scenario, old oldSpec, um, mode uint32, cbFail int, cbMode string, injects []string, wantInj string, wantIdx, wantHi int,
-	unlinkInj bool, killKind string, killIdx int) (string, bool) {
+	unlinkInj bool, killKind string, killIdx int, kmode bool) (string, bool) {
 	dir, dst := setup(old)
 	defer cleanup(dir)
 	oldState := fileState(dst)
@@ -658,11 +673,15 @@ func runOnce(f []string, s scenario, old oldSpec, um, mode uint32, cbFail int, c
 	} else if len(ex) > 1 {
 		t = "MULTI"
 	}
+	tgt := ""
+	if kmode {
+		tgt = kindsSuffix(old, dir, &sq, &res)
+	}
 	if f[0] == "trace" {
 		if res == "" {
 			res = "none"
 		}
-		return fmt.Sprintf("seq=%s res=%s dst=%s tmp=%s reader=%s%s%s", sq, res, fileState(dst), t, rs, note, targetCheck(dir, old)), note != ""
+		return fmt.Sprintf("seq=%s res=%s dst=%s tmp=%s reader=%s%s%s%s", sq, res, fileState(dst), t, rs, tgt, note, targetCheck(dir, old)), note != ""
 	}
-	return fmt.Sprintf("seq=%s dst=%s tmp=%s reader=%s%s%s", sq, fileState(dst), t, rs, note, targetCheck(dir, old)), note != ""
+	return fmt.Sprintf("seq=%s dst=%s tmp=%s reader=%s%s%s%s", sq, fileState(dst), t, rs, tgt, note, targetCheck(dir, old)), note != ""
 }
